@@ -54,9 +54,42 @@ def specs(flavours):
     return out
 
 
+def _plan_scenario(rng):
+    """three records for the plan group: a cyclic task X->X, a second task with the same origin, then an update in which X succeeds
+    (X is on the initially active path of the structure S3)"""
+    import structgen
+    nodes = structgen.number(structgen.parse(S3[1]))
+    active = [0]
+    while nodes[active[-1]].kind != 'L':
+        active.append(nodes[active[-1]].subs[0].id)
+    heads = [n for n in nodes if n.kind != 'L' and n.id in active]
+    head = rng.choice(heads)
+    size = sum(1 for n in nodes if _inside(nodes, n.id, head.id))
+    xs = [a for a in active if a != head.id and _inside(nodes, a, head.id)]
+    x = rng.choice(xs)
+    r2 = (x - head.id - 1) + (size - 1) * rng.randrange(0, max(1, (255 - (x - head.id - 1)) // (size - 1)))
+    def rec(kind, a1, a2, a3, scripts=()):
+        r = bytearray([kind, a1, a2 & 255, a3, rng.randrange(256)])
+        for k in range(3):
+            r += bytes(scripts[k]) if k < len(scripts) else bytes([0, 0, 0])
+        return bytes(r + bytes(16 - len(r)))
+    succeed = (x, 2 | (4 << 3), 0)     # state X, method update, action 4 (succeed), type 0
+    return rec(6, head.region, r2, 1 | (rng.randrange(3) << 6)) + rec(6, head.region, r2, 2 | (rng.randrange(64) << 2)) + rec(0, 0, 0, 0, [succeed])
+
+
+def _inside(nodes, s, head):
+    while s >= 0:
+        if s == head:
+            return True
+        s = nodes[s].parent
+    return False
+
+
 def gen_case(rng):
     n = rng.choice([1, 2, 3, 4, 6, 8, 12])
     b = bytearray()
+    if rng.random() < 0.15:
+        b += _plan_scenario(rng)
     for _ in range(n):
         kind = rng.choice([0, 0, 0, 1, 2, 2, 3, 3, 3, 4, 5, 6, 6, 6, 7])   # 6/7: plan append / clear in the plan group, update / react elsewhere
         rec = bytearray([kind, rng.randrange(256), rng.randrange(256), rng.randrange(256), rng.randrange(256)])
